@@ -12,15 +12,8 @@ pub struct Params {
 }
 
 fn reflect(v: u64, bits: u32) -> u64 {
-    let mut r = 0u64;
-    let mut i = 0;
-    while i < bits {
-        if (v >> i) & 1 == 1 {
-            r |= 1 << (bits - 1 - i);
-        }
-        i += 1;
-    }
-    r
+    // bit i of the result = bit (bits-1-i) of v
+    v.reverse_bits() >> (64 - bits)
 }
 
 pub fn crc_bitwise(p: &Params, data: &[u8]) -> u64 {
